@@ -644,11 +644,15 @@ public:
 		return std::nullopt;
 	}
 
-	[[nodiscard]] std::optional<CMsgPackReadBinaryScope<TReader>> OpenBinaryScope(size_t) const
+	[[nodiscard]] std::optional<CMsgPackReadBinaryScope<TReader>> OpenBinaryScope(size_t)
 	{
-		if (size_t sz = 0; mMsgPackReader->ReadBinarySize(sz)) {
+		CheckEnd();
+		if (size_t sz = 0; mMsgPackReader->ReadBinarySize(sz))
+		{
+			++mIndex;
 			return std::make_optional<CMsgPackReadBinaryScope<TReader>>(sz, mMsgPackReader, GetContext());
 		}
+		// Not a binary array: the element stays unread (the caller falls back to `OpenArrayScope()`)
 		return std::nullopt;
 	}
 
@@ -777,7 +781,7 @@ public:
 			if (size_t sz = 0; mMsgPackReader->ReadBinarySize(sz)) {
 				return std::make_optional<CMsgPackReadBinaryScope<TReader>>(sz, mMsgPackReader, GetContext(), this);
 			}
-			OnFinishChildScope();
+			// Not a binary array: the value stays unread under the current key (the caller falls back to `OpenArrayScope()`)
 		}
 		return std::nullopt;
 	}
